@@ -555,7 +555,15 @@ class TagAttrDict(Dict[str, "str | HTML"]):
                 nm = self._normalize_attr_name(k)
 
                 if nm in attrz:
-                    val = attrz[nm] + " " + val
+                    prev = attrz[nm]
+                    # When a plain string is merged with an HTML() value, the result is
+                    # HTML() and is written as is; so the plain side must be escaped for
+                    # an attribute context (quotes, CR, LF), not just as text.
+                    if isinstance(prev, HTML) and not isinstance(val, HTML):
+                        val = HTML(html_escape(val, attr=True))
+                    elif isinstance(val, HTML) and not isinstance(prev, HTML):
+                        prev = HTML(html_escape(prev, attr=True))
+                    val = prev + " " + val
 
                 attrz[nm] = val
 
